@@ -830,6 +830,11 @@ func (z *Decimal) FMA(x, y, u *Decimal) *Decimal {
 	z0.neg = x.neg != y.neg
 
 	if x.form == finite && y.form == finite {
+		if u.form == inf {
+			// x * y + ±Inf: the infinity absorbs any finite product, even
+			// one whose exponent overflows to an infinity of the other sign.
+			return z.Set(u)
+		}
 		// x * y (common case)
 		// prevent rounding in umul
 		prec := z0.prec
